@@ -166,7 +166,7 @@ func ruleORDER(c *Ctx) {
 		}
 	}
 	c.MinCount(rule, "", 18)
-	c.Note("ORDER trusts the standard library (text/template, go/format, regexp, sort) to be deterministic; sort.Slice comparators are assumed to be total on the collected elements")
+	c.Note("ORDER trusts the standard library (text/template, go/format, regexp, sort) to be deterministic; a sort.Slice comparator written as a function literal must contain an ordered comparison of element data (a boolean-only predicate leaves ties in map order); beyond that comparators are assumed to be total on the collected elements")
 }
 
 func lastName(e ast.Expr) string {
@@ -727,6 +727,13 @@ func isSortOf(info *types.Info, s ast.Stmt, name string) bool {
 	if types.ExprString(call.Args[0]) != name {
 		return false
 	}
+	// a comparator given as a function literal must order the elements by some of their data: a
+	// predicate built from booleans only ("standard packages first") leaves ties in map order
+	if len(call.Args) > 1 {
+		if fl, ok := call.Args[len(call.Args)-1].(*ast.FuncLit); ok && !comparatorOrders(fl) {
+			return false
+		}
+	}
 	switch fn.Pkg().Path() {
 	case "sort":
 		switch fn.Name() {
@@ -737,6 +744,27 @@ func isSortOf(info *types.Info, s ast.Stmt, name string) bool {
 		return strings.HasPrefix(fn.Name(), "Sort")
 	}
 	return false
+}
+
+// comparatorOrders: the function literal contains an ordered comparison (<, >, <=, >=) or a
+// Compare call - i.e. it can tell two different elements of the same class apart.
+func comparatorOrders(fl *ast.FuncLit) bool {
+	found := false
+	ast.Inspect(fl.Body, func(n ast.Node) bool {
+		switch x := n.(type) {
+		case *ast.BinaryExpr:
+			switch x.Op {
+			case token.LSS, token.GTR, token.LEQ, token.GEQ:
+				found = true
+			}
+		case *ast.CallExpr:
+			if se, ok := x.Fun.(*ast.SelectorExpr); ok && strings.HasPrefix(se.Sel.Name, "Compare") {
+				found = true
+			}
+		}
+		return !found
+	})
+	return found
 }
 
 // onlyAppendsTo: the statement is a loop/if whose only mention of name is `name = append(name, …)`.
